@@ -116,6 +116,10 @@ pub struct SchedState {
     yield_alts: bool,
     /// task that kept the processor at its last yield (a run of such yields is one deviation)
     yield_streak: Option<usize>,
+    yield_streak_len: u32,
+    /// futex words in order of first appearance in this execution (addresses are not stable
+    /// identities: the heap layout inherited from the exploring parent varies)
+    futex_ids: Vec<usize>,
 }
 
 static mut S: Option<SchedState> = None;
@@ -148,6 +152,8 @@ pub fn init(cfg: &Cfg) {
         strict: cfg.strict_deviations,
         yield_alts: cfg.yield_alts,
         yield_streak: None,
+        yield_streak_len: 0,
+        futex_ids: Vec::new(),
     };
     s.tasks[0].used = true;
     s.tasks[0].canon = 1;
@@ -451,7 +457,7 @@ fn decide(me: usize) -> Option<(usize, Decision)> {
     let mut cost_mask = 0u32;
     for (i, a) in alts.iter().enumerate() {
         let cost = match a {
-            Alt::Run(t) => i > 0 && ((me_enabled && *t != me) || s.strict || (yield_self == Some(i) && s.yield_streak != Some(me))),
+            Alt::Run(t) => i > 0 && ((me_enabled && *t != me) || s.strict || (yield_self == Some(i) && (s.yield_streak != Some(me) || s.yield_streak_len >= 8))),
             Alt::Timer(_) | Alt::Eintr(_) => (nrun2 > 0 || s.strict) && i > 0,
         };
         if cost {
@@ -507,7 +513,15 @@ pub fn point(op: Op) -> Decision {
     match decide(me) {
         None => deadlock(),
         Some((next, reason)) => {
-            s.yield_streak = if op == Op::Yield && next == me { Some(me) } else { None };
+            // a run of at most 8 yields that keep the processor is one deviation (spin-then-park
+            // back-offs yield a handful of times); a longer run (a polling loop) pays again
+            if op == Op::Yield && next == me {
+                s.yield_streak_len = if s.yield_streak == Some(me) && s.yield_streak_len < 8 { s.yield_streak_len + 1 } else { 1 };
+                s.yield_streak = Some(me);
+            } else {
+                s.yield_streak = None;
+                s.yield_streak_len = 0;
+            }
             if next == me {
                 s.tasks[me].wait_others = None;
                 return reason;
@@ -545,7 +559,17 @@ fn objs_of(op: Op) -> (u64, [u64; 2]) {
         Op::EpollWait { epfd, .. } => (6, [interpose::obj_of(epfd).0, 0]),
         Op::Poll { fd, .. } => (7, [interpose::obj_of(fd).0, 0]),
         Op::PollN { .. } => (7, [0, 0]),
-        Op::FutexWait { addr, .. } => (8, [addr as u64 | (1 << 63), 0]),
+        Op::FutexWait { addr, .. } => {
+            let s = st();
+            let id = match s.futex_ids.iter().position(|a| *a == addr) {
+                Some(i) => i,
+                None => {
+                    s.futex_ids.push(addr);
+                    s.futex_ids.len() - 1
+                },
+            };
+            (8, [id as u64 | (1 << 63), 0])
+        },
         Op::Join { task } => (9, [(task as u64) | (1 << 62), 0]),
         Op::Yield => (10, [0, 0]),
         Op::Settle => (11, [0, 0]),
